@@ -232,8 +232,11 @@ def api_call(ctx, name):
         a.data["end"] = a.data["start"] + a.data["end"]
         acc = GA.from_rows([("chr1", 0, 6000)])
         return [a, acc], lambda: antitarget.do_antitarget(a, acc, 1000, 300)
-    if name == "fix":
+    if name in ("fix", "fix_unsorted"):
         tb = [("chr1", 100, 300, "A"), ("chr1", 300, 700, "A"), ("chr2", 50, 250, "B")]
+        if name == "fix_unsorted":
+            # rows not in genomic order: do_fix sorts internally, the caller's table must stay as it was
+            tb = [tb[2], tb[1], tb[0]]
         ab = [("chr1", 1000, 9000, "Antitarget")]
 
         def mk(bs, pre):
@@ -421,7 +424,7 @@ def h_ensure_path(ctx, k):
 
 APIS = [
     "call:threshold:", "call:clonal:", "call:none:", "call:threshold:ci,cn", "call:threshold:cn", "call:clonal:ampdel", "segment", "segmetrics", "genemetrics", "breaks", "bintest",
-    "export_bed", "export_vcf", "center_all", "by_gene", "by_arm", "merge", "flatten", "subtract", "intersection", "subdivide", "resize", "target", "antitarget", "fix",
+    "export_bed", "export_vcf", "center_all", "by_gene", "by_arm", "merge", "flatten", "subtract", "intersection", "subdivide", "resize", "target", "antitarget", "fix", "fix_unsorted",
 ]
 
 HARNESSES = [
